@@ -319,6 +319,11 @@ void do_printf_ints(S &sink, char t, format_options opts,
 	// The 0 flag is ignored if a precision is given or if the field is left-justified.
 	if(opts.precision || opts.left_justify)
 		opts.fill_zeros = false;
+	// The + and space flags only apply to signed conversions.
+	if(t != 'd' && t != 'i') {
+		opts.always_sign = false;
+		opts.plus_becomes_space = false;
+	}
 
 	switch(t) {
 	case 'd':
